@@ -30,7 +30,12 @@ WORDS = ["SELECT", "INSERT", "INTO", "VALUES", "FROM", "WHERE", "UPDATE", "SET",
          "AND", "OR", "ORDER", "BY", "LIMIT", "USE", "DATABASE", "varchar(255)", "int", "*", ",", "(", ")", "=",
          "<>", ">=", "t", "name", "a.b", "42", "3", "c0", "//x", "-", "t1.id"]
 BODY = [";", " ", "  ", "a", "b;c", "it", "OTHER", "--", "(", ")", ",", "é", "中", "\U0001F600", " ",
-        "select", "x;y;", ";;", " ;", "; ", "OTHER;OTHER", "　", "~", "z", "\ufffd", "a\ufffdb"]
+        "select", "x;y;", ";;", " ;", "; ", "OTHER;OTHER", "　", "~", "z", "\ufffd", "a\ufffdb",
+        # code points that are not "graphic": format characters (ZWNJ, ZWJ, soft hyphen, BOM, LRM), line / paragraph
+        # separators, C1 controls, private use, a tag character, the last code point, an unassigned one -
+        # typed or pasted they are part of the literal like any other character
+        "\u200c", "می\u200cخواهم", "\U0001F468\u200d\U0001F469", "co\u00adop", "\ufeff", "\u200e", "\u2028", "\u2029",
+        "\u0085", "\u009f", "\ue000", "\U000e0001", "\U0010ffff", "\u0378"]
 
 
 # ---------------------------------------------------------------------------------------------
